@@ -25,7 +25,8 @@ FAILS = (CIF_MEMORY_ERROR, CIF_ERROR)
 NULLPTR = 'null-pointer'
 
 LIST_PV = ('list', (('numb', '1', False), ('char', 'a b', True), ('list', (('unk',), ('table', (('k', ('na',)),)))), ))
-TABLE_PV = ('table', (('Key', ('char', 'v', False)), ('k2', ('list', (('numb', '2.5(1)', False), ('char', 'x', True)))), ('\u00e9', ('unk',))))
+TABLE_PV = ('table', (('Key', ('char', 'v', False)), ('k2', ('list', (('numb', '2.5(1)', False), ('char', 'x', True)))), ('\u00e9', ('unk',)),
+                      ('\u0959k', ('na',)), ('zz\u095b', ('char', 'w', True))))
 DOC = ("#\\#CIF_2.0\ndata_p1\n_a 1\n_b 'two'\n_t {'k':[1 2 {'n':?}]}\nloop_\n_x _y\n1 2\n3 4\n;text\nfield\n;\n[a b]\n"
        "save_fr\n_in 1.5(2)\nsave_\ndata_p2\n_c \"\"\"triple\"\"\"\n").encode()
 
@@ -290,6 +291,16 @@ rc_op('cif_value_remove_element_at:discard', 'cif_value_remove_element_at', lamb
 rc_op('cif_value_set_item_by_key:new', 'cif_value_set_item_by_key', lambda L, fx: (fx.v_table, U('fresh'), fx.v_list))
 rc_op('cif_value_set_item_by_key:replace', 'cif_value_set_item_by_key', lambda L, fx: (fx.v_table, U('Key'), fx.v_numb))
 rc_op('cif_value_set_item_by_key:null', 'cif_value_set_item_by_key', lambda L, fx: (fx.v_table, U('fresh'), None))
+# keys through every way the normaliser sizes its output: composition exclusions make the NFC form one unit longer
+# than the key as given (only the terminator does not fit), several make it much longer (second pass), a decomposed
+# key makes it shorter
+rc_op('cif_value_set_item_by_key:key-one-unit-longer-normalised', 'cif_value_set_item_by_key', lambda L, fx: (fx.v_table, U('k\u0958'), fx.v_char))
+rc_op('cif_value_set_item_by_key:key-much-longer-normalised', 'cif_value_set_item_by_key', lambda L, fx: (fx.v_table, U('\u0958\u0959\u095a\u095b\u095c\u0f43\ufb1d'), fx.v_char))
+rc_op('cif_value_set_item_by_key:key-shorter-normalised', 'cif_value_set_item_by_key', lambda L, fx: (fx.v_table, U('e\u0301a\u0308o\u0302'), fx.v_char))
+rc_op('cif_value_get_item_by_key:key-one-unit-longer-normalised', 'cif_value_get_item_by_key', lambda L, fx: (fx.v_table, U('\u0959k'), None))
+rc_op('cif_value_remove_item_by_key:key-one-unit-longer-normalised', 'cif_value_remove_item_by_key', lambda L, fx: (fx.v_table, U('zz\u095b'), None))
+rc_op('cif_container_set_value:name-with-composition-exclusion', 'cif_container_set_value', lambda L, fx: (fx.b2, U('_n\u0958'), fx.v_char))
+rc_op('cif_packet_set_item:name-with-composition-exclusion', 'cif_packet_set_item', lambda L, fx: (fx.pk, U('_\u095e'), fx.v_char))
 rc_op('cif_value_remove_item_by_key:discard', 'cif_value_remove_item_by_key', lambda L, fx: (fx.v_table, U('k2'), None))
 
 
